@@ -4,7 +4,9 @@ import LdkModel.Props.C05
 import LdkModel.Props.C08
 import LdkModel.Props.C09
 import LdkModel.Props.C13
+import LdkModel.Props.C14
 import LdkModel.Props.C15
 import LdkModel.Props.C16
 import LdkModel.Props.C17
+import LdkModel.Props.C18
 import LdkModel.Props.C20
